@@ -171,13 +171,19 @@ InvOracle == phase = "corrupted" =>
                /\ FastStructViols(post, S0) = StructViols(post, S0)
 
 (* ---- generation *)
-RECURSIVE HashSeq(_, _, _)
-HashSeq(s, i, h) == IF i > Len(s) THEN h
-                    ELSE HashSeq(s, i + 1, (h * 31 + s[i] + 7) % 1000003)
+(* which triples to print: a cheap hash of the call and of the links around
+   the node it concerns, before and after (a hash over the whole heap cost
+   more than the call itself) *)
+At(f, i) == IF i = 0 THEN 0 ELSE f[i]
 Sampled ==
   \/ SampleMod = 1
-  \/ HashSeq(post.right, 1, HashSeq(tree.left, 1,
-       HashSeq(<<op.n, op.key, n, SampleSeed % 65536>>, 1, 17))) % SampleMod = 0
+  \/ ( op.n * 7 + op.key * 13 + n * 31 + (SampleSeed % 65536)
+       + tree.root * 17 + post.root * 19
+       + At(tree.left, tree.root) * 23 + At(tree.right, tree.root) * 29
+       + tree.parent[op.n] * 37 + tree.left[op.n] * 41 + tree.right[op.n] * 43
+       + post.parent[op.n] * 47 + post.left[op.n] * 53 + post.right[op.n] * 59
+       + At(post.height, post.root) * 61 + At(post.left, post.root) * 67
+       + At(post.right, post.root) * 71 ) % SampleMod = 0
 
 Emit == (Done /\ Sampled) =>
           PrintT("GEN " \o ToJson([pre |-> Pre, n |-> n, op |-> op, ret |-> ret,
